@@ -172,37 +172,37 @@ def make_child(spec):
     label = spec["label"]
     const = dict(spec.get("const", {}))
     if kind == "F":
-        n = nodes.term_node(spec["i"], label=label)
+        n = nodes.term_node(spec["i"], label=label, **spec.get("_ctor", {}))
     elif kind in MACRO_ARGS:
         CUR.append(spec["spec"])
         try:
-            n = globals()[kind](label=label)
+            n = globals()[kind](label=label, **spec.get("_ctor", {}))
         finally:
             CUR.pop()
     elif kind == "for":
-        n = ForF1(label=label)
+        n = ForF1(label=label, **spec.get("_ctor", {}))
     elif kind == "i2l":
-        n = I2L(label=label)
+        n = I2L(label=label, **spec.get("_ctor", {}))
     elif kind == "l2o":
-        n = L2O(label=label)
+        n = L2O(label=label, **spec.get("_ctor", {}))
     elif kind == "snap":
-        n = Snap(label=label)
+        n = Snap(label=label, **spec.get("_ctor", {}))
     elif kind == "loc":
-        n = Loc(label=label)
+        n = Loc(label=label, **spec.get("_ctor", {}))
     elif kind == "forsnap":
-        n = ForSnap(label=label)
+        n = ForSnap(label=label, **spec.get("_ctor", {}))
     elif kind == "T":
-        n = nodes.Typed(label=label)
+        n = nodes.Typed(label=label, **spec.get("_ctor", {}))
     elif kind == "TO":
-        n = nodes.TypedOut(label=label)
+        n = nodes.TypedOut(label=label, **spec.get("_ctor", {}))
     elif kind == "ui":
-        n = standard.UserInput(label=label)
+        n = standard.UserInput(label=label, **spec.get("_ctor", {}))
     elif kind == "add":
-        n = standard.Add(label=label)
+        n = standard.Add(label=label, **spec.get("_ctor", {}))
     elif kind == "lt":
-        n = standard.LessThan(label=label)
+        n = standard.LessThan(label=label, **spec.get("_ctor", {}))
     elif kind == "if":
-        n = standard.If(label=label)
+        n = standard.If(label=label, **spec.get("_ctor", {}))
     else:
         raise ValueError(f"unknown kind {kind}")
     for k, v in const.items():
